@@ -97,6 +97,8 @@ func base(dir string, p []int) doc {
 				doc{"name": "block", "client": "reject", "toDomainSets": []any{"blocked"}},
 				doc{"name": "via-ss", "client": "c-ss", "fromServers": []any{"s-http"}, "toPrefixSets": []any{"private"}, "resolver": "local"},
 				doc{"name": "grp", "client": "g-rr", "toPorts": []any{9999.0}},
+				// a condition on the FIRST server only: requests arriving on every later server evaluate it too
+				doc{"name": "from-first", "client": "direct", "fromServers": []any{"s-socks"}},
 			},
 		},
 	}
@@ -206,6 +208,21 @@ func mutations() []mutation {
 		{"dup-server", "reject", "names are unique", func(d doc, _ string) { srv(d, 4)["name"] = "s-socks" }},
 		{"dup-client", "reject", "names are unique", func(d doc, _ string) { cli(d, 2)["name"] = "direct" }},
 		{"dup-group-vs-client", "reject", "names are unique", func(d doc, _ string) { d["clientGroups"].([]any)[0].(doc)["name"] = "direct" }},
+		{"dup-group-vs-udp-only-client", "reject", "names are unique", func(d doc, _ string) {
+			d["clients"] = append(d["clients"].([]any), doc{"name": "g-rr", "protocol": "direct", "enableUDP": true, "mtu": 1500})
+		}},
+		{"dup-udp-only-groups", "reject", "names are unique", func(d doc, _ string) {
+			g := doc{"name": "g-udp", "udp": doc{"policy": "round-robin", "clients": []any{"direct", "c-socks"}}}
+			d["clientGroups"] = append(d["clientGroups"].([]any), g, clone(g))
+		}},
+		{"udp-only-group-vs-udp-only-client", "reject", "names are unique", func(d doc, _ string) {
+			d["clients"] = append(d["clients"].([]any), doc{"name": "c-udp", "protocol": "direct", "enableUDP": true, "mtu": 1500})
+			d["clientGroups"] = append(d["clientGroups"].([]any), doc{"name": "c-udp", "udp": doc{"policy": "round-robin", "clients": []any{"direct"}}})
+		}},
+		{"route-from-middle-server-inverted", "accept", "a source-server condition may name any server", func(d doc, _ string) {
+			route(d, 3)["fromServers"] = []any{"s-ss"}
+			route(d, 3)["invertFromServers"] = true
+		}},
 		{"dup-dns", "reject", "names are unique", func(d doc, _ string) {
 			d["dns"] = append(d["dns"].([]any), clone(d["dns"].([]any)[0]))
 		}},
